@@ -186,8 +186,12 @@ fn run(ctx: &mut Ctx) {
             history.push(text.clone());
             let eff = match upd::apply(&mut model, &u, &mut fresh_counter) {
                 Ok(e) => e,
-                Err(_) => {
+                Err(kvk::msparql::EvalError::TooBig) => {
                     ctx.count("histories_cut_oracle_where_answer_too_big", 1);
+                    break;
+                }
+                Err(kvk::msparql::EvalError::NonNumericAggregate) => {
+                    ctx.count("histories_cut_where_aggregates_over_non_numeric_values", 1);
                     break;
                 }
             };
